@@ -129,6 +129,7 @@ func renderInto(reuse *core, u *Universe, spec *Node, k knobs, f Fault, failAt, 
 	} else {
 		err = c.Render(ctx, w.as(k.WKind))
 	}
+	w.done = true
 	return outcome{got: w.got, err: err, env: env, w: w}
 }
 
@@ -136,6 +137,7 @@ func c10World(rc *kernel.RunCtx) {
 	t := rc.T
 	k := kernel.New(t, kernel.M1, 1<<30)
 	kernel.Active = k
+	takeLateUse() // nothing from an earlier run
 	kn := drawKnobs(t, rc.Run)
 	kn.install(t)
 	defer simsync.SetPoolPolicy(nil, 0)
@@ -400,6 +402,9 @@ func c10World(rc *kernel.RunCtx) {
 	k.Count("pool_reused", r)
 	k.Count("pool_fresh", f)
 	k.Logf("spec %s knobs %+v doc %d points %d offsets %d", spec, kn, len(D), npoints, len(offs))
+	if lu := takeLateUse(); lu != "" {
+		rc.Fail("C10/writer-used-after-its-render-returned", "%s", lu)
+	}
 	rc.Finish(k)
 	rc.Res.Nontriv = fired > 0
 	rc.Res.Key = fmt.Sprintf("%x/%+v", spec.Hash(), kn)
